@@ -260,6 +260,10 @@ mod set_ref;
 #[cfg(feature = "rayon")]
 mod rayon_impls;
 
+#[cfg(feature = "verif")]
+#[doc(hidden)]
+pub mod verif;
+
 #[cfg(feature = "serde")]
 mod serde_impls;
 
